@@ -273,6 +273,17 @@ def handle (d : DState) (line : String) : Except String (DState × String) := do
         let dp := (censored nbt.toList).toArray
         let probs := mirjaliliRow c (fun d => dp.getD d 0) (fun _ => cat) order
         pure (d, s!"probs={fList fRat probs} sum={fRat (lsum probs)}")
+    | "hendrixprobs" => do
+        -- one row of Hendrix event probabilities for stock totals (x, y) from the primitive tables; also the specification row
+        let pa := (← pList pRat (← arg a "pa")).toArray
+        let pb := (← pList pRat (← arg a "pb")).toArray
+        let tail := (← pList pRat (← arg a "tail")).toArray
+        let t : HendrixTab Rat := { D := ← pNat (← arg a "D"), maxA := ← pNat (← arg a "maxA"), maxB := ← pNat (← arg a "maxB"),
+                                    pa := fun n => pa.getD n 0, pb := fun n => pb.getD n 0, tailA := fun x => tail.getD x 0, rho := ← pRat (← arg a "rho") }
+        let x ← pNat (← arg a "x"); let y ← pNat (← arg a "y")
+        let row := hendrixRow t x y
+        let spec := (List.range (t.maxA + 1)).flatMap fun ia => (List.range (t.maxB + 1)).map fun ib => hendrixSpecCell t x y ia ib
+        pure (d, s!"probs={fList fRat row} sum={fRat (lsum row)} spec_equal={decide (row = spec)}")
     | "ls" => do
         pure (d, fStore (getDir d (← arg a "dir")))
     | "cpdir" => do
